@@ -112,8 +112,12 @@ package announce
 
 // The duplicate filter remembers 64 CIDs.
 //@ func NewReceiver
-//@   property C09
+//@   property C09 C16
 //@   at call newStringLRU#1: assert arg0 == 64
+//@   ensures result1 == nil ==> recvOK(result0) && !held(result0.announceMutex) && !result0.closed
+//@   ensures result1 == nil ==> (result0.cancelWatch != nil ==> result0.watchDone != nil && result0.topicSub != nil) && (result0.cancelPubsub != nil ==> result0.topic != nil)
+//@   ensures result1 == nil ==> isfresh(result0) && isfresh(result0.done) && isfresh(result0.outChan)
+//@   ensures result1 != nil ==> result0 == nil
 
 // Pubsub loop: a republished message (original-peer field set) coming from this
 // host itself is ignored, otherwise it is attributed to the original publisher;
